@@ -10,6 +10,7 @@ import copy
 import dataclasses
 import gc
 import types
+import typing
 from dataclasses import dataclass, field
 from typing import Any, Dict, List, Optional, Tuple
 
@@ -254,7 +255,10 @@ def models_shard(progs):
         except (Invalid, Unspec):
             in_paths = None
         if in_paths is not None and prog.load_creation_error is None and schema["extra_in"] != "kwargs":
-            for iname, make in inputs_for(spec, in_paths, node_kinds, []):
+            plain_inputs = list(inputs_for(spec, in_paths, node_kinds, []))
+            missing_inputs = [(iname + " as defaultdict", lambda make=make: _with_missing(make())) for iname, make in plain_inputs
+                              if isinstance(make(), dict)]
+            for iname, make in plain_inputs + missing_inputs:
                 for mode in (("DISABLE", True), ("ALL", True), ("FIRST", False)):
                     def allowed(a, spec=spec):
                         # values at Any-typed fields pass through; find them in the raw input by walking everything: any container
@@ -280,6 +284,19 @@ def models_shard(progs):
                             "configs": cfgs, "object": vname, "debug": dbg})
         clear_caches(n)
     return report
+
+
+def _missing_value():
+    return "<<made by __missing__>>"
+
+
+def _with_missing(d):
+    """the same input, every dict of it replaced by a mapping with __missing__ (what a subscription lookup would fill)"""
+    if type(d) is dict:
+        return collections.defaultdict(_missing_value, {k: _with_missing(v) for k, v in d.items()})
+    if type(d) is list:
+        return [_with_missing(x) for x in d]
+    return d
 
 
 def _dictany_values(a):
@@ -373,6 +390,93 @@ def conv_leg(report):
                {"key": ("conv", dst.__name__), "kind": "convert", "dst": dst.__name__}, check_closure=True)
 
 
+CONV_POOL = {
+    "List[int]": (List[int], lambda: [1, 2]),
+    "List[List[int]]": (List[List[int]], lambda: [[1], [2, 3]]),
+    "Tuple[int, ...]": (Tuple[int, ...], lambda: (1, 2)),
+    "Set[int]": (typing.Set[int], lambda: {1, 2}),
+    "Sequence[int]": (typing.Sequence[int], lambda: [1, 2]),
+    "Iterable[int]": (typing.Iterable[int], lambda: [1, 2]),
+    "Dict[str, int]": (Dict[str, int], lambda: {"k": 1}),
+    "Mapping[str, int]": (typing.Mapping[str, int], lambda: {"k": 1}),
+    "MutableMapping[str, int]": (typing.MutableMapping[str, int], lambda: {"k": 1}),
+    "Dict[str, List[int]]": (Dict[str, List[int]], lambda: {"k": [1, 2]}),
+    "Mapping[str, List[int]]": (typing.Mapping[str, List[int]], lambda: {"k": [1, 2]}),
+    "Mapping[str, Sequence[int]]": (typing.Mapping[str, typing.Sequence[int]], lambda: {"k": [1, 2]}),
+    "Optional[List[int]]": (Optional[List[int]], lambda: [1, 2]),
+    "Optional[Dict[str, int]]": (Optional[Dict[str, int]], lambda: {"k": 1}),
+    "Optional[Mapping[str, int]]": (Optional[typing.Mapping[str, int]], lambda: {"k": 1}),
+    "Any": (Any, lambda: [1, {"k": [2]}]),
+}
+
+
+def _equal_positions(s, d, value, out):
+    """ids of containers at positions where source and destination types are the same (documented: passed as is)"""
+    if s == d or d is Any:
+        out.update(containers(value))
+        return
+    so, do = typing.get_origin(s), typing.get_origin(d)
+    sa, da = typing.get_args(s), typing.get_args(d)
+    if do is typing.Union and set(sa if so is typing.Union else (s,)) <= set(da):
+        out.update(containers(value))     # "source union is a subset of destination union": passed as is
+        return
+    if so is typing.Union and do is typing.Union and value is not None:
+        _equal_positions(sa[0], da[0], value, out)
+    elif isinstance(value, dict) and len(sa) == 2 and len(da) == 2:
+        for v in value.values():
+            _equal_positions(sa[1], da[1], v, out)
+    elif isinstance(value, (list, tuple, set)) and sa and da:
+        for v in value:
+            _equal_positions(sa[0], da[0], v, out)
+
+
+def conv_pairs_leg(report):
+    for sname, (shint, mk) in CONV_POOL.items():
+        for dname, (dhint, _) in CONV_POOL.items():
+            src = dataclasses.make_dataclass("Src", [("f", shint)])
+            dst = dataclasses.make_dataclass("Dst", [("f", dhint)])
+            try:
+                conv = get_converter(src, dst)
+            except Exception:  # noqa: BLE001
+                report.outcome("conv pair refused")
+                continue
+
+            def allowed(a, shint=shint, dhint=dhint):
+                out = set()
+                _equal_positions(shint, dhint, a.f, out)
+                return out
+            purity(report, {"check": "C20.convert", "site": "field_pair"}, f"convert Src.f: {sname} -> Dst.f: {dname}", conv,
+                   lambda src=src, mk=mk: src(mk()), allowed,
+                   {"key": ("convpair", sname, dname), "kind": "convert_pair", "src": sname, "dst": dname}, check_closure=True)
+
+
+def variants_leg(report):
+    """loaders and dumpers of non-default providers, generic and recursive models (the C01 extra programs)"""
+    from checks import c01_extra
+    for leg, gen in (("generic", c01_extra.generic_cases), ("recursive", c01_extra.recursive_cases), ("variant", c01_extra.variant_cases)):
+        for name, hint, value, recipe in gen():
+            for mode in (("DISABLE", True), ("ALL", True)):
+                r = retort_with(recipe, mode)
+                try:
+                    dumper, loader = r.get_dumper(hint), r.get_loader(hint)
+                    dumped = dumper(copy.deepcopy(value))
+                except Exception:  # noqa: BLE001
+                    report.outcome("variant not creatable")
+                    continue
+                base = {"kind": "variant", "leg": leg, "name": name, "mode": list(mode)}
+                purity(report, {"check": "C20.variant_dump", "leg": leg}, f"dump {name} of {value!r} [{mode_name(mode)}]"[:200], dumper,
+                       lambda value=value: copy.deepcopy(value), lambda a: set(),
+                       {**base, "key": ("vd", name, repr(value)[:60], mode)})
+                purity(report, {"check": "C20.variant_load", "leg": leg}, f"load {name} <- {codec.show(dumped, 60)} [{mode_name(mode)}]", loader,
+                       lambda dumped=dumped: copy.deepcopy(dumped), lambda a: set(),
+                       {**base, "key": ("vl", name, repr(value)[:60], mode)})
+
+
+def retort_with(recipe, mode):
+    from adaptix import DebugTrail
+    return Retort(recipe=recipe, debug_trail=DebugTrail[mode[0]], strict_coercion=mode[1])
+
+
 def run(tier):
     report = Report()
     parallel.run_shards(types_shard, type_shards(tier, 64 if tier == "quick" else 256), report=report)
@@ -380,6 +484,8 @@ def run(tier):
     n = 64 if tier == "quick" else 256
     parallel.run_shards(models_shard, [progs[i::n] for i in range(n) if progs[i::n]], report=report)
     conv_leg(report)
+    conv_pairs_leg(report)
+    variants_leg(report)
     return report
 
 
@@ -396,6 +502,10 @@ def replay(case):
         types_shard([from_json(case["type"])]).violations and report.merge(types_shard([from_json(case["type"])]))
     elif case["kind"] in ("model_load", "model_dump"):
         report.merge(models_shard([(case["spec"], case["configs"])]))
+    elif case["kind"] == "convert_pair":
+        conv_pairs_leg(report)
+    elif case["kind"] == "variant":
+        variants_leg(report)
     else:
         conv_leg(report)
     for v in report.violations.values():
